@@ -17,7 +17,8 @@ From Coq Require Import ZArith List Bool String Sorted Permutation.
 From FrameModel Require Import Num.QcTac PB.Expr PB.Cnf PB.Robdd PB.Codify PB.Sat
   RectSearch.Coords RectSearch.Names RectSearch.Encode RectSearch.Registry RectSearch.Shapes RectSearch.EncodeFacts
   RectSearch.GridFacts RectSearch.BoxFacts RectSearch.AttachFacts RectSearch.ShapesFacts RectSearch.SearchFacts
-  RectSearch.BboxFacts RectSearch.Examples RectSearch.GridGen RectSearch.GridIff RectSearch.GridTheorems RectSearch.SelectBox.
+  RectSearch.BboxFacts RectSearch.Examples RectSearch.GridGen RectSearch.GridIff RectSearch.GridTheorems RectSearch.SelectBox
+  RectSearch.Spelling.
 Import ListNotations.
 Local Open Scope nat_scope.
 
@@ -203,3 +204,23 @@ Theorem C08_select_box_grid : forall xs ys sel (cms : list (cell * list (string 
   is_grid xs ys (map (cell_of sel) cms).
 Proof. exact select_box_of_grid. Qed.
 Print Assumptions C08_select_box_grid.
+
+(* how the numbers are WRITTEN (RectSearch/Spelling.v): the cells of the input problem are tuples of Python numbers;
+   one grid line may be the int 1 in some cells and the float 1.0 (a numpy scalar, 0.0 / -0.0, 10e-1 in a file) in
+   others.  The model reads a written number by its value ([read_problem]); two ways of writing the same grid are
+   the same input, so the formula, its models and the search's answer cannot depend on the writing - and all the
+   theorems above apply to [read_problem ws].  (Different values - 0.1 + 0.2 and 0.3 - are different lines:
+   Spelling.ex_near_grid.)  The harness hands the model the problem as it was written to the implementation. *)
+Theorem C08_spelling_irrelevant : forall ws ws', Forall2 same_values ws ws' -> read_problem ws = read_problem ws'.
+Proof. exact spelling_irrelevant. Qed.
+Print Assumptions C08_spelling_irrelevant.
+
+(* (iii) for a grid written in any way *)
+Theorem C08_spelled_shapes_exact : forall ws k (m0 : memory),
+  full_grid (read_problem ws) = true -> 1 <= k -> mem_wf m0 ->
+  exists m s sts, run_posts m0 empty_mgr (shape_posts Repaired (read_problem ws) k) = Some (m, s, sts) /\
+    forall sigma,
+      (exists a, (forall i b, i < k -> b < List.length ws -> a (name (VCell i b)) = sigma i b) /\
+                 ext a (clauses s)) <-> shape k (read_problem ws) sigma.
+Proof. exact spelled_shapes_exact. Qed.
+Print Assumptions C08_spelled_shapes_exact.
